@@ -268,6 +268,7 @@ func scenC06(c *ctx) {
 		cf := c.handBuilt(c.rng.Intn(32), c.rng.Intn(3), 4+c.rng.Intn(7), raws[c.rng.Intn(len(raws))])
 		cases("hand", cfgSuiteArg(cf))
 	}
+	c.scenC06Near()
 	// generation would fail: invalid suites and inadmissible inputs never validate, whatever the code
 	for i := 0; i < c.n(80, 1500); i++ {
 		id++
@@ -312,6 +313,112 @@ func uint64FromB(b []byte) uint64 {
 		v = v<<8 | uint64(x)
 	}
 	return v
+}
+
+// C06 continued: strings that only a sloppy comparison accepts, and inadmissible inputs submitted with the
+// code of the nearest admissible input (field zero-padded or cut to its fixed width).
+func (c *ctx) scenC06Near() {
+	id := 0
+	names := listSuites()
+	pickSuite := func() suiteArg {
+		if len(names) > 0 && c.rng.Intn(2) == 0 {
+			if sa, err := rawSuiteArg(names[c.rng.Intn(len(names))]); err == nil {
+				return sa
+			}
+		}
+		return cfgSuiteArg(c.handBuilt(c.rng.Intn(32), c.rng.Intn(3), 4+c.rng.Intn(7), []byte("OCRA-1:HOTP-SHA1-6:QN08")))
+	}
+	// codes with leading zeros: same numeric value, different bytes
+	for i := 0; i < c.n(25, 300); i++ {
+		sa := pickSuite()
+		key := c.someKey()
+		for try := 0; try < 60; try++ {
+			in := c.admissibleInput(sa.su.Cfg, try)
+			if !sa.su.Cfg.C && !sa.su.Cfg.Q && !sa.su.Cfg.T {
+				key = c.someKey()
+			}
+			g := doGenerateOCRA("probe", b32(key), sa, in)
+			code := string(g.Val)
+			if g.Kind != "value" || len(code) < 2 || code[0] != '0' {
+				continue
+			}
+			id++
+			for _, lead := range []string{"+", " ", "-", "\t", "o", "O"} {
+				c.rec.Emit(doValidateOCRA(fmt.Sprintf("C06/lead/%d/%q", id, lead), b32(key), lead+code[1:], sa, in))
+			}
+			if code[1] == '0' {
+				c.rec.Emit(doValidateOCRA(fmt.Sprintf("C06/lead/%d/two", id), b32(key), " +"+code[2:], sa, in))
+			}
+			c.rec.Emit(doValidateOCRA(fmt.Sprintf("C06/lead/%d/exact", id), b32(key), code, sa, in))
+			break
+		}
+	}
+	// inadmissible input + code of the nearest admissible input
+	for i := 0; i < c.n(120, 2000); i++ {
+		cf := c.handBuilt(c.rng.Intn(32)|[]int{1, 2, 8, 16, 4}[i%5], c.rng.Intn(3), 4+c.rng.Intn(7), []byte("OCRA-1:X"))
+		sa := cfgSuiteArg(cf)
+		if i%4 == 0 && len(names) > 0 {
+			if s2, err := rawSuiteArg(names[c.rng.Intn(len(names))]); err == nil {
+				sa, cf = s2, s2.su.Cfg
+			}
+		}
+		key := c.someKey()
+		good := c.admissibleInput(cf, i)
+		bad := good
+		switch {
+		case i%5 == 0 && cf.C:
+			if c.rng.Intn(2) == 0 { // 7 bytes: zero-padded on the right by a sloppy pad
+				good.Counter = append(c.randBytes(7), 0)
+				bad.Counter = good.Counter[:7]
+			} else { // 9 bytes: cut to 8
+				bad.Counter = append(append([]byte{}, good.Counter...), byte(c.rng.Intn(256)))
+			}
+		case i%5 == 1 && cf.Q:
+			lo := minChal(cf.Chal)
+			switch c.rng.Intn(3) {
+			case 0: // too short; the admissible neighbour is the same bytes followed by zeros
+				n := c.rng.Intn(lo)
+				good.Challenge = append(c.randBytes(n), make([]byte, lo-n)...)
+				bad.Challenge = good.Challenge[:n]
+			case 1: // absent
+				good.Challenge = make([]byte, lo)
+				bad.Challenge = nil
+			default: // too long; the neighbour is the first 128 bytes
+				good.Challenge = c.randBytes(128)
+				bad.Challenge = append(append([]byte{}, good.Challenge...), c.randBytes(1+c.rng.Intn(12))...)
+			}
+		case i%5 == 2 && cf.S:
+			good.SessionInfo = c.randBytes(128)
+			bad.SessionInfo = append(append([]byte{}, good.SessionInfo...), c.randBytes(1+c.rng.Intn(12))...)
+		case i%5 == 3 && cf.T:
+			if c.rng.Intn(2) == 0 {
+				good.Timestamp = append(c.randBytes(7), 0)
+				bad.Timestamp = good.Timestamp[:7]
+			} else {
+				bad.Timestamp = append(append([]byte{}, good.Timestamp...), 7)
+			}
+		case cf.P:
+			n := pwLen(cf.PH)
+			switch c.rng.Intn(3) {
+			case 0:
+				bad.Password = nil
+			case 1:
+				bad.Password = append(append([]byte{}, good.Password...), 0)
+			default:
+				bad.Password = good.Password[:n-1]
+			}
+		default:
+			continue
+		}
+		g := doGenerateOCRA("probe", b32(key), sa, good)
+		if g.Kind != "value" {
+			continue
+		}
+		id++
+		c.rec.Emit(doValidateOCRA(fmt.Sprintf("C06/near/%d/bad", id), b32(key), string(g.Val), sa, bad))
+		c.rec.Emit(doGenerateOCRA(fmt.Sprintf("C06/near/%d/genbad", id), b32(key), sa, bad))
+		c.rec.Emit(doValidateOCRA(fmt.Sprintf("C06/near/%d/good", id), b32(key), string(g.Val), sa, good))
+	}
 }
 
 // ---------------- C14 ----------------
